@@ -84,7 +84,7 @@ Print Assumptions C06_formatter_writes_a_layered_derivation.
 Theorem C06_unparenthesised_tree_does_not_roundtrip :
   let v := fun n : string => FVar (s_ n) in
   let e := FBin OpAsterisk false (FBin OpPlus false (v "a"%string) (v "b"%string)) (v "c"%string) in
-  let E := {| e_funcs := []; e_vars := [s_ "a"%string; s_ "b"%string; s_ "c"%string]; e_tyerr := fun _ _ _ => false; e_fix_slice := true |} in
+  let E := {| e_funcs := []; e_vars := [s_ "a"%string; s_ "b"%string; s_ "c"%string]; e_arity := []; e_tyerr := fun _ _ _ => false; e_fix_slice := true |} in
   let toks := toks_of_pieces (fmt_expr no_fixes 0 e) ++ [mk T_NL] in
   prec_ok e = false /\
   exists t st', parse_expr E 40 lowestPrec (init_state toks) = Some (Some t, st') /\ t <> fexpr_tree e.
